@@ -12,7 +12,50 @@ pub fn fnv(h: u64, x: u64) -> u64 {
     (h ^ x).wrapping_mul(0x100000001b3)
 }
 
-pub trait Subject: Send + Sync {
+/// Thread check through autoref specialisation on `Sync`: a type that stops being `Sync` (interior
+/// mutability) must not break the harness build; the check then reports `None`.
+pub struct SyncProbe<'a, T>(pub &'a T);
+pub trait ViaSync {
+    fn threaded(&self, seeds: &[u64], n: usize) -> Option<Vec<Vec<u64>>>;
+}
+impl<T: Subject + Sync> ViaSync for SyncProbe<'_, T> {
+    fn threaded(&self, seeds: &[u64], n: usize) -> Option<Vec<Vec<u64>>> {
+        let subj: &T = self.0;
+        Some(std::thread::scope(|sc| {
+            let hs: Vec<_> = seeds
+                .iter()
+                .map(|&sd| {
+                    sc.spawn(move || {
+                        let mut r = Mon::new(AnyWords::S(Scripted::plain(sd)));
+                        std::panic::catch_unwind(std::panic::AssertUnwindSafe(|| (0..n).map(|_| subj.call_hash(&mut r)).collect::<Vec<u64>>())).unwrap_or_default()
+                    })
+                })
+                .collect();
+            hs.into_iter().map(|h| h.join().unwrap_or_default()).collect()
+        }))
+    }
+}
+pub trait ViaNoSync {
+    fn threaded(&self, seeds: &[u64], n: usize) -> Option<Vec<Vec<u64>>>;
+}
+impl<T> ViaNoSync for &SyncProbe<'_, T> {
+    fn threaded(&self, _seeds: &[u64], _n: usize) -> Option<Vec<Vec<u64>>> {
+        None
+    }
+}
+macro_rules! threads_impl {
+    () => {
+        fn threaded_hashes(&self, seeds: &[u64], n: usize) -> Option<Vec<Vec<u64>>> {
+            #[allow(unused_imports)]
+            use crate::subject::{ViaNoSync, ViaSync};
+            (&SyncProbe(self)).threaded(seeds, n)
+        }
+    };
+}
+
+pub trait Subject {
+    /// `n` sample hashes per seed, drawn by one thread per seed sharing `&self`; `None` if the type is not `Sync`
+    fn threaded_hashes(&self, seeds: &[u64], n: usize) -> Option<Vec<Vec<u64>>>;
     fn call(&self, rng: &mut R) -> (Sup, Val);
     /// hash of every bit of the returned sample (all components for vector-valued samplers)
     fn call_hash(&self, rng: &mut R) -> u64 {
@@ -42,6 +85,7 @@ pub struct Scalar {
     pub d: Dist,
 }
 impl Subject for Scalar {
+    threads_impl!();
     fn clone_box(&self) -> Box<dyn Subject> {
         Box::new(self.clone())
     }
@@ -72,6 +116,7 @@ macro_rules! unit_subject {
         #[derive(Clone)]
         struct $name;
         impl Subject for $name {
+            threads_impl!();
             fn clone_box(&self) -> Box<dyn Subject> {
                 Box::new(self.clone())
             }
@@ -123,9 +168,14 @@ unit_subject!(UBall64, UnitBall, 3, f64, false, |n, e| n <= 1.0 + 4.0 * e);
 
 macro_rules! dirichlet_subject {
     ($name:ident, $F:ty, $is32:expr) => {
-        #[derive(Clone)]
-        struct $name(Dirichlet<$F>, usize);
+        struct $name(Dirichlet<$F>, usize, std::sync::Mutex<Vec<$F>>);
+        impl Clone for $name {
+            fn clone(&self) -> Self {
+                $name(self.0.clone(), self.1, std::sync::Mutex::new(vec![0.25 as $F; self.1]))
+            }
+        }
         impl Subject for $name {
+            threads_impl!();
             fn clone_box(&self) -> Box<dyn Subject> {
                 Box::new(self.clone())
             }
@@ -136,8 +186,19 @@ macro_rules! dirichlet_subject {
                 other.as_any().downcast_ref::<$name>().map(|o| o.0 == self.0)
             }
             fn call_hash(&self, rng: &mut R) -> u64 {
-                let x: Vec<$F> = self.0.sample(rng);
-                x.iter().fold(0xcbf29ce484222325, |h, c| fnv(h, c.to_bits() as u64))
+                // through sample_to_slice into a REUSED buffer (whatever the previous call left in it): the
+                // result must not depend on the buffer's previous contents
+                use rand_distr::multi::MultiDistribution;
+                match self.2.try_lock() {
+                    Ok(mut buf) => {
+                        self.0.sample_to_slice(rng, &mut buf);
+                        buf.iter().fold(0xcbf29ce484222325, |h, c| fnv(h, c.to_bits() as u64))
+                    }
+                    Err(_) => {
+                        let x: Vec<$F> = self.0.sample(rng);
+                        x.iter().fold(0xcbf29ce484222325, |h, c| fnv(h, c.to_bits() as u64))
+                    }
+                }
             }
             fn iter_hashes(&self, rng: &mut R, n: usize) -> Option<Vec<u64>> {
                 let it = (&self.0).sample_iter(rng);
@@ -183,6 +244,7 @@ macro_rules! weighted_subject {
         #[derive(Clone)]
         struct $aname(WeightedAliasIndex<$W>, Vec<$W>);
         impl Subject for $aname {
+            threads_impl!();
             fn clone_box(&self) -> Box<dyn Subject> {
                 Box::new(self.clone())
             }
@@ -208,6 +270,7 @@ macro_rules! weighted_subject {
         #[derive(Clone)]
         struct $tname(WeightedTreeIndex<$W>, Vec<$W>);
         impl Subject for $tname {
+            threads_impl!();
             fn clone_box(&self) -> Box<dyn Subject> {
                 Box::new(self.clone())
             }
@@ -266,9 +329,9 @@ pub fn subject(case: &Case) -> Result<Box<dyn Subject>, String> {
             let a = case.pf();
             return if is32 {
                 let v: Vec<f32> = a.iter().map(|&x| x as f32).collect();
-                Dirichlet::new(&v).map(|d| Box::new(Dir32(d, v.len())) as Box<dyn Subject>).map_err(|e| format!("{e:?}"))
+                Dirichlet::new(&v).map(|d| Box::new(Dir32(d, v.len(), std::sync::Mutex::new(vec![0.25f32; v.len()]))) as Box<dyn Subject>).map_err(|e| format!("{e:?}"))
             } else {
-                Dirichlet::new(&a).map(|d| Box::new(Dir64(d, a.len())) as Box<dyn Subject>).map_err(|e| format!("{e:?}"))
+                Dirichlet::new(&a).map(|d| Box::new(Dir64(d, a.len(), std::sync::Mutex::new(vec![0.25f64; a.len()]))) as Box<dyn Subject>).map_err(|e| format!("{e:?}"))
             };
         }
         _ => {}
